@@ -40,6 +40,12 @@ KINDS = {"quso": ["dict", "QUSO", "QUSOMatrix"],
          "puso": ["dict", "QUSO", "PUSO", "PCSO", "QUSOMatrix", "PUSOMatrix"],
          "qubo": ["dict", "QUBO", "QUBOMatrix"],
          "pubo": ["dict", "QUBO", "PUBO", "PCBO", "QUBOMatrix", "PUBOMatrix"]}
+# every model type the four annealers accept (KINDS above are the documented ones; other checks import KINDS):
+# anneal_quso / anneal_qubo also take the higher-degree types as long as no key has more than two labels
+ALL_KINDS = {"quso": ["dict", "QUSO", "QUSOMatrix", "PUSOMatrix", "PUSO", "PCSO"],
+             "puso": ["dict", "QUSO", "PUSO", "PCSO", "QUSOMatrix", "PUSOMatrix"],
+             "qubo": ["dict", "QUBO", "QUBOMatrix", "PUBOMatrix", "PUBO", "PCBO"],
+             "pubo": ["dict", "QUBO", "PUBO", "PCBO", "QUBOMatrix", "PUBOMatrix"]}
 MATRIX = {"QUBOMatrix", "QUSOMatrix", "PUBOMatrix", "PUSOMatrix"}
 DEG2 = {"QUBO", "QUSO", "QUBOMatrix", "QUSOMatrix"}
 
@@ -107,13 +113,13 @@ COEFS = ["1", "-1", "2", "-2", "3", "-3", "1/2", "-1/2", "3/2", "-3/4", "1/4", "
 def gen_case(rng, force=None):
     force = force or {}
     fn = force.get("fn") or rng.choice(["quso", "puso", "qubo", "pubo"])
-    kind = force.get("kind") or rng.choice(KINDS[fn])
+    kind = force.get("kind") or rng.choice(ALL_KINDS[fn])
     deg2 = fn in ("quso", "qubo") or kind in DEG2
     maxdeg = 2 if deg2 else 4
     matrix = kind in MATRIX
     shape = force.get("shape") or rng.choice(["general"] * 10 + ["offset", "linear", "empty", "cancelled", "cancelled",
                                                                  "isolated", "dup", "toodeg"])
-    if shape == "toodeg" and not (fn in ("quso", "qubo") and kind == "dict"):
+    if shape == "toodeg" and not (fn in ("quso", "qubo") and kind not in DEG2):
         shape = "general"
     if shape == "cancelled" and kind == "dict":
         shape = "general"
@@ -235,8 +241,24 @@ def build_obj(case):
     o = cls_of(case["kind"])()
     for k, v in case["ops"]:
         o[L.key(k)] += num_of(v, case["num"])
+    for cn in case.get("cons") or []:
+        # PCBO / PCSO: recorded constraints (penalty terms, ancillas `__a<k>` for the inequalities)
+        P = {L.key(k): num_of(v, "int") for k, v in cn["P"]}
+        with warnings.catch_warnings():
+            warnings.simplefilter("ignore")
+            getattr(o, "add_constraint_%s_zero" % cn["rel"])(P, lam=num_of(cn["lam"], "int"))
     apply_mapping(case, o, L)
     return o, L
+
+def obj_data(case, obj, L):
+    """for objects whose history is not a plain `+=` history (constraints): the data the front end reads, taken from
+    the real object — items in dict order, `_variables`, the labels by integer index"""
+    if not case.get("cons"):
+        return None
+    rev = obj.reverse_mapping
+    return {"terms": [[L.ids(k), fs(v)] for k, v in obj.items()],
+            "vars": sorted(L.ident(v) for v in obj._variables),
+            "mapping": [L.ident(rev[i]) for i in range(len(rev))]}
 
 def schedule_args(case, obj):
     """(kwargs for the real call, schedule as data for the model)"""
@@ -300,8 +322,8 @@ def run_impl(case, prebuilt=None):
         return {"err": "canon:" + repr(e)}, res, obj, L, sched_data, c.last, repr(e)
     return canon, res, obj, L, sched_data, c.last, None
 
-def model_line(case, sched_data):
-    return {"op": "c11_anneal", "fn": case["fn"], "kind": case["kind"], "ops": case["ops"],
+def model_line(case, sched_data, data=None):
+    return {"op": "c11_anneal", "fn": case["fn"], "kind": case["kind"], "ops": case["ops"], "obj": data,
             "num_anneals": case["num_anneals"], "sched": sched_data, "init": case["init"],
             "in_order": case["in_order"], "seed": case["seed"], "mapping": mapping_by_index(case)}
 
@@ -346,6 +368,14 @@ def oracle(case, canon, res, obj, L, detail):
     """returns (signature, why) or None"""
     spin = case["fn"] in SPIN_FNS
     poly, variables, deg_bad = input_facts(case)
+    if case.get("cons"):
+        # the model is the object's own items (base terms + penalties); evaluated independently below
+        poly = {}
+        for k, v in obj.items():
+            sk = tuple(sorted(L.ids(k)))
+            poly[sk] = poly.get(sk, Fraction(0)) + Fraction(v)
+        variables = {L.ident(v) for v in obj._variables}
+        deg_bad = any(len(k) > 2 for k in poly) and case["fn"] in ("quso", "qubo")
     s = case["sched"]
     na = case["num_anneals"]
     matrix = case["kind"] in MATRIX
@@ -353,21 +383,22 @@ def oracle(case, canon, res, obj, L, detail):
     # object keeps after a cancellation); `cur`: labels of the terms present now.  The exact domain:
     #   spin function, Matrix input        0..max(`variables`) (the object's max_index now, cancelled labels included)
     #   spin function, labelled / dict     `variables`
+    #   anneal_quso on PUSOMatrix / PUSO / PCSO   rebuilt as QUSOMatrix(L) / QUSO(L): 0..max(cur) resp. cur
     #   boolean function                   the conversion builds a fresh spin model from the terms present now:
     #                                      Matrix input -> 0..max(cur); labelled input -> cur; dict -> `variables`
     # Only for a plain dict whose raw keys collide after squashing (e.g. (0,1) and (1,0)) the property text does not
     # say whether a cancelled label is a variable: there anything between `cur` and `variables` is accepted.
     cur = {i for k in poly for i in k}
+    # `fresh`: the function rebuilds the model from the terms present now (qubo_to_quso / pubo_to_puso always;
+    # anneal_quso: `QUSOMatrix(L)` for a PUSOMatrix, `QUSO(L)` for PUSO / PCSO), so cancelled labels are gone
+    fresh = (not spin) or (case["fn"] == "quso" and case["kind"] in ("PUSOMatrix", "PUSO", "PCSO"))
     if matrix:
-        if spin:
-            # max_index of the object *now*: the largest label that ever carried a nonzero coefficient
-            domain = set(range(max(variables) + 1)) if variables else set()
-        else:
-            domain = set(range(max(cur) + 1)) if cur else set()
-    elif spin or case["kind"] == "dict":
+        top = cur if fresh else variables
+        domain = set(range(max(top) + 1)) if top else set()
+    elif case["kind"] == "dict":
         domain = set(variables)
     else:
-        domain = set(cur)
+        domain = set(cur) if fresh else set(variables)
     collide = case["kind"] == "dict" and len({tuple(squashed(k, spin)) for k, _ in case["ops"]}) < len(case["ops"])
     def domain_ok(st):
         st = set(st)
@@ -411,6 +442,12 @@ def oracle(case, canon, res, obj, L, detail):
         st = {L.ident(k): v for k, v in r.state.items()}
         if not domain_ok(st):
             sig = "C11:D1-repeated-label-key" if dup else "C11:domain"
+            if case["fn"] == "quso" and case["kind"] == "PUSOMatrix" and not dup:
+                # (repaired, 9e17397) anneal_quso used to send a PUSOMatrix through QUSO(L): a labelled model whose
+                # states omit the indices that occur in no term
+                sig = "C11:quso-pusomatrix-domain"
+            if case["fn"] == "qubo" and case["kind"] == "PUBOMatrix" and not dup:
+                sig = "C11:matrix-domain-qubo-PUBOMatrix"
             if case["fn"] == "pubo" and case["kind"] == "QUBOMatrix" and not dup:
                 # (repaired) pubo_to_puso used to turn a QUBOMatrix into a *labelled* PUSO, whose states cover the
                 # variables only instead of every index 0..max_index
@@ -460,6 +497,40 @@ def gen_mapping_case(rng):
     c["num_anneals"] = rng.choice([1, 1, 2, 3])
     if c["init"] is not None:
         c["init"] = [[i, rng.choice([1, -1])] for i in labs]
+    return c
+
+def gen_cons_case(rng):
+    """PCSO / PCBO with recorded constraints: base terms plus `add_constraint_eq_zero` / `_le_zero` (the latter brings
+    ancilla variables `__a<k>`); P is linear for anneal_quso / anneal_qubo so that the penalty stays quadratic"""
+    fn = rng.choice(["quso", "puso", "qubo", "pubo"])
+    kind = "PCSO" if fn in SPIN_FNS else "PCBO"
+    c = gen_case(rng, {"fn": fn, "kind": kind, "shape": "general"})
+    ids = sorted({i for k, _ in c["ops"] for i in k}) or [0]
+    cons = []
+    for _ in range(rng.randint(1, 2)):
+        rel = rng.choice(["eq", "le", "le"])
+        P = []
+        for i in rng.sample(ids, min(len(ids), rng.randint(1, 3))):
+            P.append([[i], rng.choice(["1", "-1", "2"])])
+        if fn in ("puso", "pubo") and len(ids) >= 2 and rng.random() < 0.4:
+            P.append([rng.sample(ids, 2), rng.choice(["1", "-1"])])
+        # the constant makes the constraint neither trivially true nor impossible: minus a value the linear part takes
+        vals = [1, -1] if fn in SPIN_FNS else [0, 1]
+        reach = sum(int(v) * rng.choice(vals) for k, v in P if len(k) == 1)
+        P.append([[], str(-reach - (rng.choice([0, 0, 1]) if rel == "le" else 0))])
+        seen, P2 = set(), []
+        for k, v in P:
+            if tuple(sorted(k)) not in seen and v != "0":
+                seen.add(tuple(sorted(k))); P2.append([k, v])
+        cons.append({"rel": rel, "P": P2, "lam": rng.choice(["1", "2", "3"])})
+    c["cons"] = cons
+    c["shape"] = "constraints"
+    # the ancilla labels are the strings "__a<k>"; the model's ids for them are above all user ids, and only integer
+    # user labels sort below a string in qubovert's ordering_key (DESIGN.md §3.1: labels -> ids must be monotone,
+    # qubo_to_quso / pubo_to_puso re-sort the keys of a PCBO)
+    c["labels"] = "int"
+    c["init"] = None
+    c["num"] = rng.choice(["int", "float"])
     return c
 
 HIST_KINDS = {"quso": ["QUSOMatrix", "QUSOMatrix", "QUSO"], "puso": ["PUSOMatrix", "PUSOMatrix", "QUSOMatrix", "PUSO", "PCSO"],
@@ -651,7 +722,7 @@ def process(ctx, cases):
         r = run_impl(c)
         impls.append(r)
         # seed=None seeds PCG32 from the clock: no replay, the oracle only
-        lines.append(model_line(c, r[4]) if c["seed"] is not None else {"op": "ping"})
+        lines.append(model_line(c, r[4], obj_data(c, r[2], r[3])) if c["seed"] is not None else {"op": "ping"})
     models = common.run_driver(lines)
     for c, (canon, res, obj, L, _sd, call, detail), m in zip(a_cases, impls, models):
         m = canon_model(m) if c["seed"] is not None else canon
@@ -786,6 +857,7 @@ def check(ctx):
     cases += [gen_kernel_case(rng) for _ in range(ctx.scale(800, 10000))]
     cases += [gen_mapping_case(rng) for _ in range(ctx.scale(400, 5000))]
     cases += [gen_history(rng) for _ in range(ctx.scale(400, 5000))]
+    cases += [gen_cons_case(rng) for _ in range(ctx.scale(300, 4000))]
     process(ctx, cases)
     if ctx.diffs and not ctx.violations:
         search(ctx)
